@@ -245,6 +245,21 @@ func checkC08(c *checkCtx) {
 		if total > 0 {
 			c.cov("c08.one_further_attempt")
 		}
+		// a hedge policy that was running when the cancellation took effect starts at most one more attempt
+		for _, n := range v.Nodes {
+			if p := v.policyAt(sc, n.Pos); p == nil || p.Kind != KHedge || n.Enter.Seq > c0seq {
+				continue
+			}
+			late := 0
+			for _, ch := range n.Children {
+				if ch.Enter.Seq > c1seq && ch.Enter.T > tc {
+					late++
+				}
+			}
+			if late > 1 {
+				c.fail("C08.further-attempts", "hedges-after-cancel", fmt.Sprintf("exec %d: the hedge policy at position %d started %d more attempts after %s had taken effect", v.ID, n.Pos, late, srcNames[src]))
+			}
+		}
 		// (c) promptness: after the cancellation instant, time passes only inside user functions
 		var inFn time.Duration
 		for i, s := range v.FnStarts {
